@@ -64,6 +64,8 @@ def run_impl(h):
                 oks.append(True)
             except (ValueError,) as e:
                 oks.append(False)
+            if h.get("reuse_buffer"):
+                Y.fill(1.0e6)          # the caller reuses / overwrites its observation buffer after the call returned
             enc_ops.append([0, order, [[F(v) for v in y] for y in op[2]]])
         elif op[0] == "update":
             mdl.update(); oks.append(True); enc_ops.append([1])
@@ -90,6 +92,8 @@ def run(ctx):
     rng = ctx.rng
     n = 500 if ctx.quick else 8000
     hs = [gen_history(rng) for _ in range(n)]
+    for i, h in enumerate(hs):
+        h["reuse_buffer"] = (i % 2 == 1)     # every second history: the caller overwrites its array after each add_sample
     lines, impls = [], []
     for h in hs:
         oks, preds, enc_ops = run_impl(h)
@@ -121,7 +125,7 @@ def run(ctx):
                 viol.append({"signature": "running-statistics-differ", "replay": rep,
                              "message": f"design {d}: predict() gives mean {[float(x) for x in pi[0]]} var {[float(x) for x in pi[1]]}; the running statistics of all samples added for it are mean {[float(x) for x in mu]} var {[float(x) for x in va]}"})
     return {"evaluations": n, "distinct_nontrivial": sum(1 for h in hs if sum(1 for o in h["ops"] if o[0] == "add") >= 2), "traces": n,
-            "rule": "operation histories (1-40 ops: add_sample with list / set / repeated indices, malformed batches (length mismatch, index == count, index > count, empty), update, clear, flag toggles) on 1-5 designs, 1-3 objectives, dyadic values; acceptance of every add and predict() for every design compared with the extracted state machine; non-trivial = at least two adds",
+            "rule": "operation histories (1-40 ops: add_sample with list / set / repeated indices, malformed batches (length mismatch, index == count, index > count, empty), update, clear, flag toggles; in every second history the caller overwrites the array it passed right after each add_sample returned) on 1-5 designs, 1-3 objectives, dyadic values; acceptance of every add and predict() for every design compared with the extracted state machine; non-trivial = at least two adds",
             "samples": [common.json.loads(common.json.dumps(hs[i], default=str)) for i in range(2)],
             "violations": viol, "extra": stats}
 
